@@ -27,7 +27,7 @@ pub struct ParseCase {
     pub fault_kind: u8,
 }
 
-pub const CHUNKS: [usize; 13] = [1, 2, 3, 7, 8, 9, 15, 16, 17, 31, 64, 4096, 16384];
+pub const CHUNKS: [usize; 14] = [1, 2, 3, 7, 8, 9, 15, 16, 17, 31, 64, 4096, 16384, 65536];
 
 pub fn gen_cfg(rng: &mut Rng) -> PCfg {
     let kind = *rng.pick(&ALL_KINDS);
